@@ -2,7 +2,7 @@
 # Build the harness binaries from /repo's current working tree with the /verif harness overlaid.
 # usage: build.sh <workdir>   → <workdir>/pkosim
 set -euo pipefail
-W=${1:?workdir}
+W=$(realpath -m ${1:?workdir})
 mkdir -p "$W"
 V=/verif/harness
 python3 - "$W" <<'PY'
